@@ -2,6 +2,7 @@ import Cppcheck.Proofs.MatchEquiv
 import Cppcheck.Props.C33Interp
 import Cppcheck.Gen.Reserved
 import Cppcheck.Proofs.Lexer
+import Cppcheck.Model.PerFunction
 /-
 C05 — property theorems (part 1: renaming; part 2 (lexer layout) below).
 
@@ -228,5 +229,43 @@ example : ((tokens (renderE exSrc)).getD []).map (·.str) =
     ["x", ">>=", "1.5e+3", ";", "p", "->", "q", ";"].map String.toList := by decide
 -- gluing / separating two operator bytes is not a layout edit: the hypothesis fails (and the tokens do change)
 example : presB (tableMap [((1, 1), (1, 1)), ((1, 3), (1, 2))]) [(1, 1), (1, 3)] [(1, 1), (1, 3)] = false := by decide
+
+
+/-! ## Part 3 — order of the function definitions
+
+A check that decides every function from the function and the call graph alone reports the same multiset of findings for
+every order of the definitions (`symbolDatabase->functionScopes` is in definition order).  The hypothesis is carried by the
+shape of the model: `perFunctionFindings v defs = defs.flatMap v` has no state that survives from one function to the next.
+`nothrowThrows` (CheckExceptionSafety::nothrowThrows, recursion guard created afresh per decided function) is of that shape;
+the variant with a per-file memo of "walked, does not throw" callees is not, and is order dependent. -/
+
+open Cppcheck.PerFunction
+
+/-- **Perm-invariance of a per-function check** -/
+theorem perFunction_perm_invariant {α β : Type} (v : α → List β) (defs defs' : List α) (h : defs.Perm defs') :
+    (perFunctionFindings v defs).Perm (perFunctionFindings v defs') :=
+  List.Perm.flatMap_right v h
+
+/-- the modelled instance: throwInNoexceptFunction / throwInEntryPoint for every program (call graph with cycles
+    included) and every two orders of the same definitions -/
+theorem nothrowThrows_perm_invariant (P : PerFunction.Prog) (defs defs' : List Nat) (h : defs.Perm defs') :
+    (nothrowThrows P defs).Perm (nothrowThrows P defs') :=
+  perFunction_perm_invariant (verdict P) defs defs' h
+
+/-- parseExpr ⇄ parseTerm (parseExpr throws), termValue noexcept → parseTerm, main → parseExpr, termValue -/
+def cycleProg : PerFunction.Prog :=
+  [⟨0, false, [.call 1, .throw]⟩, ⟨0, false, [.call 0]⟩, ⟨1, false, [.call 1]⟩, ⟨2, false, [.call 0, .call 2]⟩]
+
+example : nothrowThrows cycleProg [0, 1, 2, 3] = [(2, 0, 1), (3, 0, 2)] := by decide
+example : nothrowThrows cycleProg [0, 1, 3, 2] = [(3, 0, 2), (2, 0, 1)] := by decide
+
+/-- what the hypothesis excludes: with a memo set carried across the decided functions the provisional "does not throw"
+    of the recursion guard inside a call cycle is remembered, and swapping two independent definitions loses a finding -/
+theorem sharedMemo_order_dependent :
+    ¬ (nothrowSharedMemo cycleProg [0, 1, 2, 3] []).Perm (nothrowSharedMemo cycleProg [0, 1, 3, 2] []) := by
+  intro h
+  have := h.length_eq
+  revert this
+  decide
 
 end Cppcheck.C05
